@@ -1,11 +1,15 @@
 #!/bin/sh
-# Warm the build cache: compile every check's test binary from files on disk only.
+# Warm the build cache: compile the test binary of every check claimed in MANIFEST.json, from files on disk only.
 set -e
-cd "$(dirname "$0")/harness"
+cd "$(dirname "$0")"
 export GOFLAGS=-mod=mod GOPROXY=off GOSUMDB=off GOTOOLCHAIN=local
-mkdir -p ../.build ../evidence ../replays/new
-for d in checks/*/; do
-  n=$(basename "$d")
-  go test -c -tags verif -vet=off -o ../.build/$(echo $n | tr a-z A-Z).test ./checks/$n || exit 1
+mkdir -p .build evidence replays/new
+ids=$(python3 -c "import json;print(' '.join(c['property_id'] for c in json.load(open('MANIFEST.json'))['checks']))")
+cd harness
+for id in $ids; do
+  n=$(echo $id | tr A-Z a-z)
+  extra=""
+  [ "$id" = "C17" ] && extra="-race"
+  go test -c -tags verif -vet=off $extra -o ../.build/$id.test ./checks/$n || exit 1
 done
 echo setup ok
